@@ -9,6 +9,7 @@ from vf.simk.world import World, Mapping, PAGESIZE, SMAPS_KEYS
 
 ID = "C13"
 LEVEL = "exploration"
+ALT_MOUNT = True          # run once more with procfs mounted at /hostproc (vf/child.py)
 PATHS = [b"", b"/lib/a.so", b"/lib/a.so", b"/tmp/a b", b"/x:y", b"/tmp/z (deleted)", b"[heap]", b"/lit (deleted)", b"/p\xff", b"/srv/a  b", b"/srv/a b", b"/srv/t\tb",
          # unlinked files whose own name ends in letters of the " (deleted)" marker
          b"/usr/bin/sed (deleted)", b"/tmp/deleted (deleted)"]
